@@ -183,6 +183,12 @@ class ConfigFlag:
     negated: bool = False
 
 
+class _ReturnValue(Exception):
+    def __init__(self, value):
+        super().__init__('return')
+        self.value = value
+
+
 class GrammarEval:
     """Abstract interpreter for the definition modules."""
 
@@ -307,11 +313,14 @@ class GrammarEval:
             raise Unrecognised(f'conditional grammar construction `if {norm(t)}`', st)
         if isinstance(st, ast.Pass):
             return
+        if isinstance(st, ast.Return) and env.get('$in_function'):
+            raise _ReturnValue(self.ev(st.value, env, mod, self_cfg) if st.value is not None else None)
         if isinstance(st, ast.For) and not st.orelse:
             seq = self.ev(st.iter, env, mod, self_cfg)
             if not isinstance(seq, (tuple, list)):
                 raise Unrecognised(f'loop over `{norm(st.iter)[:50]}` (not a literal sequence) in a grammar definition', st)
-            if any(isinstance(x, (ast.Break, ast.Continue, ast.Return)) for b in st.body for x in ast.walk(b)):
+            if any(isinstance(x, (ast.Break, ast.Continue)) for b in st.body for x in ast.walk(b)) or \
+                    (not env.get('$in_function') and any(isinstance(x, ast.Return) for b in st.body for x in ast.walk(b))):
                 raise Unrecognised('loop with break/continue/return in a grammar definition', st)
             for item in list(seq):
                 self.bind(st.target, item, env, mod, st)
@@ -374,7 +383,7 @@ class GrammarEval:
                     return selfattrs[e.attr]
                 return Opaque(f'self.{e.attr}')
             if isinstance(base, str):
-                return Opaque(f'str.{e.attr}')
+                return ('strmethod', base, e.attr)
             if isinstance(base, list) and e.attr in ('append', 'extend', 'insert'):
                 return ('listmethod', base, e.attr)
             return Opaque(f'{norm(e)}')
@@ -571,9 +580,56 @@ class GrammarEval:
             for a in e.args:
                 self.ev(a, env, mod, cfg) if not isinstance(a, ast.Starred) else None
             return Opaque(f'call {f.what}')
+        if isinstance(f, tuple) and len(f) == 3 and f[0] == 'strmethod':
+            _, sval, meth = f
+            args = [self.ev(a, env, mod, cfg) for a in e.args]
+            if meth in ('split', 'rsplit', 'lower', 'upper', 'strip', 'lstrip', 'rstrip', 'title', 'capitalize', 'replace', 'join', 'format', 'startswith', 'endswith') \
+                    and not e.keywords and all(isinstance(a, (str, int)) or (isinstance(a, (list, tuple)) and all(isinstance(x, str) for x in a)) for a in args):
+                try:
+                    return getattr(sval, meth)(*args)
+                except Exception:
+                    raise Unrecognised(f'string operation `{norm(e)[:60]}`', e)
+            return Opaque(f'str.{meth}(...)')
         if isinstance(f, FuncRef):
-            raise Unrecognised(f'grammar built by calling the local function `{norm(e.func)}`', e)
+            return self.call_function(f, e, env, mod, cfg)
         raise Unrecognised(f'call `{norm(e)[:80]}`', e)
+
+    def call_function(self, f: 'FuncRef', e: ast.Call, env, mod: Module, cfg) -> Any:
+        """A grammar-building helper defined in a definition module: its body is evaluated with the arguments bound (straight-line code, loops over
+        literal sequences, comprehensions, one return value)."""
+        fn = f.action.node
+        if not isinstance(fn, ast.FunctionDef) or fn.args.vararg or fn.args.kwarg:
+            raise Unrecognised(f'grammar built by calling `{norm(e.func)}`, which this evaluator cannot follow', e)
+        self._call_depth = getattr(self, '_call_depth', 0) + 1
+        try:
+            if self._call_depth > 6:
+                raise Unrecognised(f'recursive grammar helper `{norm(e.func)}`', e)
+            fmod = self.idx.modules.get(f.action.module, mod)
+            fenv: Dict[str, Any] = dict(self.envs.get(f.action.module, {}))
+            fenv['$in_function'] = True
+            params = [a.arg for a in fn.args.args]
+            defaults = dict(zip(params[len(params) - len(fn.args.defaults):], fn.args.defaults))
+            if any(isinstance(a, ast.Starred) for a in e.args) or any(k.arg is None for k in e.keywords) or len(e.args) > len(params):
+                raise Unrecognised(f'call `{norm(e)[:60]}` with star-arguments', e)
+            bound = {}
+            for p_, a in zip(params, e.args):
+                bound[p_] = self.ev(a, env, mod, cfg)
+            for k in e.keywords:
+                bound[k.arg] = self.ev(k.value, env, mod, cfg)
+            for p_ in params:
+                if p_ not in bound:
+                    if p_ not in defaults:
+                        raise Unrecognised(f'call `{norm(e)[:60]}` leaves parameter {p_} unbound', e)
+                    bound[p_] = self.ev(defaults[p_], fenv, fmod, cfg)
+            fenv.update(bound)
+            try:
+                for st in fn.body:
+                    self.exec_stmt(st, fenv, fmod, cfg)
+            except _ReturnValue as r:
+                return r.value
+            return None
+        finally:
+            self._call_depth -= 1
 
     def set_name(self, g: G, name: Any, list_all: bool, node) -> G:
         if not isinstance(name, str):
@@ -784,7 +840,14 @@ class GrammarEval:
             kw = k(['pattern', 'flags', 'as_group_list', 'as_match'], {'asGroupList': 'as_group_list', 'asMatch': 'as_match'})
             if not isinstance(kw.get('pattern'), str):
                 raise Unrecognised('Regex() pattern is not a string literal', e)
-            return self.mk('regex', None, {'pattern': kw['pattern'], 'flags': kw.get('flags', 0)}, e, m)
+            fl = kw.get('flags', 0)
+            if isinstance(fl, Opaque):
+                import re as _re
+                nm_ = fl.what.split('.')[-1]
+                fl = int(getattr(_re, nm_)) if fl.what.startswith('re.') and nm_.isupper() and hasattr(_re, nm_) else fl
+            if not isinstance(fl, int):
+                raise Unrecognised('Regex() flags are not a constant', e)
+            return self.mk('regex', None, {'pattern': kw['pattern'], 'flags': fl}, e, m)
         if name in ('delimited_list', 'delimitedList', 'DelimitedList'):
             kw = k(['expr', 'delim', 'combine', 'min', 'max', 'allow_trailing_delim'])
             inner = self.as_g(kw.get('expr'), e, m)
